@@ -27,7 +27,9 @@ THEOREMS = [
     "C05.distinct_eq", "C05.distinct_pure", "C05.distinct_until_changed_eq", "C05.distinct_until_changed_pure",
     "C05.pairwise_eq", "C05.start_with_eq", "C05.default_if_empty_eq", "C05.ignore_elements_eq",
     "C05.take_last_eq", "C05.skip_last_eq", "C05.take_last_buffer_eq", "C05.element_at_eq",
-    "C05.find_eq", "C05.find_index_eq", "C05.find_pure", "C05.find_index_pure", "C05.starmap_eq",
+    "C05.find_eq", "C05.find_index_eq", "C05.find_pure", "C05.find_index_pure",
+    "C05.starmap_eq", "C05.starmap_tuples", "C05.starmap_identity", "C05.starmap_not_iterable",
+    "C05.pluck_eq", "C05.pluck_missing_key", "C05.pluck_found", "C05.pluck_not_subscriptable", "C05.take_timed", "C05.filter_timed",
     "C05.materialize_eq", "C05.dematerialize_eq", "C05.dematerialize_materialize", "C05.scan_seed_eq",
     "C05.map_timed", "C05.skip_last_timed", "C05.take_last_timed",
     "C05.skip_last_asis_drops_none", "C05.skip_last_asis_counter",
@@ -112,12 +114,13 @@ def gen_case(rng, vals=VALS, ops_list=OPS):
     elems = lambda: rng.choice(alphabet)  # noqa
 
     if name == "starmap":
-        tups = [enc(t) for t in [(), (1,), (1, 2), (None, 0), [1, 2], [0], (0,), ("", ())]]
-        alphabet = rng.sample(tups, 3) + ([rng.choice([None, 0, False])] if rng.random() < 0.3 else [])
+        tups = [enc(t) for t in [(), (1,), (1, 2), (None, 0), [1, 2], [0], (0,), ("", ()), "ab", "", {"k": 1}, {}, {0: None, "": 1}, []]]
+        alphabet = rng.sample(tups, 3) + ([enc(rng.choice([None, 0, False, 0.0]))] if rng.random() < 0.3 else [])
     elif name == "pluck":
-        keys = ["k", 0, "", "z"]
-        dicts = [enc(d) for d in [{}, {"k": None}, {"k": 0, "z": 1}, {0: "", "": ()}, {"k": [], 0: False}]]
-        alphabet = rng.sample(dicts, 3) + ([rng.choice([None, 0])] if rng.random() < 0.25 else [])
+        keys = ["k", "k", 0, 0, "", "z", -1, 1, 5, True, False, None, [], 0.0, -3]
+        dicts = [enc(d) for d in [{}, {"k": None}, {"k": 0, "z": 1}, {0: "", "": ()}, {"k": [], 0: False}, {None: 0, 1: ""},
+                                  [1, None], (0,), "ab", [], (), "", [[], {}, 0]]]
+        alphabet = rng.sample(dicts, 3) + ([enc(rng.choice([None, 0, False, 0.0]))] if rng.random() < 0.25 else [])
         case["key"] = enc(rng.choice(keys))
     elif name == "dematerialize":
         base = alphabet
@@ -139,19 +142,19 @@ def gen_case(rng, vals=VALS, ops_list=OPS):
     pres = lambda: pred_result(rng)  # noqa
 
     if name == "map":
-        case["f"] = gen_fn1(rng, alphabet, lambda: ({"raise": "map_err"} if rng.random() < 0.08 else enc(rng.choice(vals))))
+        case["f"] = None if rng.random() < 0.08 else gen_fn1(rng, alphabet, lambda: ({"raise": "map_err"} if rng.random() < 0.08 else enc(rng.choice(vals))))
     elif name == "map_indexed":
-        case["f"] = gen_fn_idx(rng, used, lambda: ({"raise": "mapi_err"} if rng.random() < 0.05 else enc(rng.choice(vals))))
+        case["f"] = None if rng.random() < 0.08 else gen_fn_idx(rng, used, lambda: ({"raise": "mapi_err"} if rng.random() < 0.05 else enc(rng.choice(vals))))
     elif name == "starmap":
         if rng.random() < 0.15:
             case["f"] = None
         else:
             args = []
             for a in alphabet:
-                if isinstance(a, dict) and "t" in a:
-                    args.append(a["t"][0] if len(a["t"]) == 1 else a)
-                elif isinstance(a, list):
-                    args.append(a[0] if len(a) == 1 else {"t": a})
+                v = dec(a)
+                if isinstance(v, (tuple, list, str, dict)):
+                    xs = [enc(x) for x in v]  # what *v unpacks to (a dict: its keys, a str: its characters)
+                    args.append(xs[0] if len(xs) == 1 else {"t": xs})
             case["f"] = {"tab": [[a, ({"raise": "star_err"} if rng.random() < 0.1 else enc(rng.choice(vals)))] for a in args],
                          "dflt": enc(rng.choice(vals))}
     elif name in ("filter", "take_while", "skip_while"):
@@ -218,9 +221,9 @@ def build_operator(case):
     name = case["name"]
     fn = lambda k: FnTab.from_json(case[k]) if case.get(k) is not None else None  # noqa
     if name == "map":
-        return ops.map(fn("f"))
+        return ops.map(fn("f")) if case.get("f") is not None else ops.map()
     if name == "map_indexed":
-        return ops.map_indexed(fn("f"))
+        return ops.map_indexed(fn("f")) if case.get("f") is not None else ops.map_indexed()
     if name == "starmap":
         return ops.starmap(fn("f")) if case.get("f") is not None else ops.starmap()
     if name == "pluck":
@@ -384,16 +387,16 @@ def py_ref(case, xs_enc, end):
             return N(out) + [["E", e.name]]
         except _Stop:
             return N(out) + [["C"]]
-        except (TypeError, KeyError) as e:
+        except (TypeError, KeyError, IndexError) as e:
             return N(out) + [["E", type(e).__name__]]
         return N(out) + endl
 
     if name == "map":
         f = fn("f")
-        return guarded(lambda: (f(x) for x in xs))
+        return guarded(lambda: ((f(x) if f else x) for x in xs))
     if name == "map_indexed":
         f = fn("f")
-        return guarded(lambda: (f(x, i) for i, x in enumerate(xs)))
+        return guarded(lambda: ((f(x, i) if f else x) for i, x in enumerate(xs)))
     if name == "starmap":
         f = fn("f")
         return guarded(lambda: ((f(*x) if f else x) for x in xs)) if f else N(xs) + endl
@@ -615,8 +618,9 @@ LEVEL_TEXT = ("Lean theorems (unbounded, by induction): for every raw notificati
               "eraseDupsBy/eraseRepsBy/find? for non-raising callbacks; timing: emitted_at + map_timed/skip_last_timed/take_last_timed; "
               "dematerialize_materialize; pipe_eq (composition through the real observer chain). Models mirror the handlers line by line and "
               "are tied to /repo by differential execution on generated hot timelines (timed output, subscriber-level and raw).")
-LEVEL_NOTE = ("All listed operators have theorems; starmap/pluck are stated as map instances (their argument adapters mapper(*t) / d[k] live in the "
-              "driver and are correspondence-only). distinct is modelled with the C09 fix for a raising comparer (on_error instead of escaping) and map_indexed with the C04 fix (per-subscription counter, one more AutoDetachObserver in front of the observer). "
+LEVEL_NOTE = ("All listed operators have theorems; starmap/pluck are map instances over the modelled argument adapters of RxModel/OpsVal.lean "
+              "(*values unpacking of tuples/lists/strings/dicts, x[key] on dicts/lists/tuples/strings incl. KeyError/IndexError/TypeError); only the "
+              "FnTab n-ary key convention lives in the driver. distinct is modelled with the C09 fix for a raising comparer (on_error instead of escaping) and map_indexed with the C04 fix (per-subscription counter, one more AutoDetachObserver in front of the observer). "
               "skip_last is modelled with the proposed fix (fixes/C05_skip_last_none.patch): on the unfixed tree the check reports VIOLATION; "
               "the as-is behaviour is kept as skipLastAsIsOp with decide'd counter-example theorems skip_last_asis_*. take(0)/empty() and "
               "start_with (concat+from_iterable) are modelled as 'emitted while subscribing'; the scheduler hop inside concat is not modelled "
